@@ -30,7 +30,8 @@ RULE = ("a case is one history over {construct(i, dash/gen/nest, add_config_path
         "parse_args / parse_known_args(i, argv), print_help(i), format_help(i)} on a pool of <= 3 parsers; parser "
         "definitions come from 7 small classes (int/str/bool/List/Optional fields, heterogeneous Tuple fields incl. "
         "Tuple[str,bool] / Tuple[int,bool,str] whose bool item can be rejected mid-tuple, a "
-        "subgroups field with two alternatives, a field with a custom type=) x 6 spelling configurations; the same "
+        "subgroups field with two alternatives, a field with a custom type=, builtin-generic list / tuple / Optional-list fields "
+        "over Unions whose members come in different orders in two classes) x 6 spelling configurations; the same "
         "dataclass object may be registered on several parsers; argv per parser: valid in its own spelling, "
         "valid in the other spelling, bad value, unknown option, -h, config files (present / missing). Exhaustive slice: "
         "every history over a 25-letter alphabet on three fixed parsers up to length 3 + 1/150 of length 4 (quick) / up to length 3 + 1/3 of length 4 + 1/150 of length 5 (thorough); random "
@@ -111,7 +112,29 @@ CLASSES["K"] = {"name": "K", "fields": [dict(_f("tag", STR, _s("0")), ctype="int
 CLASSES["F"] = {"name": "F", "fields": [
     _f("feature", {"k": "tuple", "items": [STR, BOOL]}, {"t": "tuple", "v": [_s("a"), {"t": "bool", "v": False}]}),
     _f("trio", {"k": "tuple", "items": [INT, BOOL, STR]}, {"t": "tuple", "v": [_i(1), {"t": "bool", "v": True}, _s("z")]})], "sub": None}
-DEST = {"A": "a", "B": "b", "T": "t", "S": "s", "L": "l", "K": "k", "F": "f"}
+# builtin-generic containers over Unions with the SAME members in DIFFERENT orders (`list[Union[int, float]]` ==
+# `list[Union[float, int]]`, equal hashes — but the item parser tries the members in declaration order): a cache keyed by
+# the annotation anywhere in the library makes one parser answer with the other parser's member order
+def _u(*alts):
+    return {"k": "union", "alts": [{"k": a} for a in alts]}
+
+
+def _bl(item):
+    return {"k": "list", "item": item, "builtin": True}
+
+
+def _bvt(item):
+    return {"k": "vtuple", "item": item, "builtin": True}
+
+
+_EMPTY_L, _EMPTY_T = {"t": "list", "v": []}, {"t": "tuple", "v": []}
+CLASSES["UA"] = {"name": "UA", "sub": None, "fields": [
+    _f("vals", _bl(_u("int", "float")), _EMPTY_L), _f("ids", _bl(_u("int", "str")), _EMPTY_L),
+    _f("vt", _bvt(_u("int", "float")), _EMPTY_T), _f("ov", {"k": "opt", "inner": _bl(_u("int", "str")), "builtin": True}, {"t": "none"})]}
+CLASSES["UB"] = {"name": "UB", "sub": None, "fields": [
+    _f("lrs", _bl(_u("float", "int")), _EMPTY_L), _f("tags", _bl(_u("str", "int")), _EMPTY_L),
+    _f("wt", _bvt(_u("float", "int")), _EMPTY_T), _f("ow", {"k": "opt", "inner": _bl(_u("str", "int")), "builtin": True}, {"t": "none"})]}
+DEST = {"A": "a", "B": "b", "T": "t", "S": "s", "L": "l", "K": "k", "F": "f", "UA": "ua", "UB": "ub"}
 CFGS = [
     {"dash": "UNDERSCORE", "gen": "FLAT", "nest": "DEFAULT"},
     {"dash": "DASH", "gen": "FLAT", "nest": "DEFAULT"},
@@ -172,6 +195,12 @@ def segments(cfg, cname, dest):
                 "twice3": [o("trio"), "3", "no", "q", o("trio"), "4", "yes", "r"],
                 "bad_last": [o("feature"), "yes", "maybe"], "bad_mid": [o("trio"), "3", "maybe", "q"],
                 "bad_first": [o("trio"), "x", "yes", "q"], "bad_then_ok": [o("trio"), "3", "maybe", "q", o("feature"), "yes", "true"]}
+    if cname == "UA":
+        return {"ok1": [o("vals"), "3", "2.5"], "ok2": [o("ids"), "7", "x"], "ok3": [o("vt"), "3", "2.5", o("ov"), "7", "x"],
+                "ok4": [o("ov"), "7"], "bad": [o("vals"), "3", "zz"]}
+    if cname == "UB":
+        return {"ok1": [o("lrs"), "3", "2.5"], "ok2": [o("tags"), "7", "x"], "ok3": [o("wt"), "3", "2.5", o("ow"), "7", "x"],
+                "ok4": [o("ow"), "7"], "bad": [o("lrs"), "3", "zz"]}
     if cname == "K":
         return {"ok1": [o("tag"), "12"], "ok2": [o("n_k"), "4", o("tag") + "=7"], "bad": [o("tag"), "abc"]}
     if cname == "L":
@@ -184,6 +213,24 @@ def segments(cfg, cname, dest):
 
 
 CTYPES = {"int": int, "float": float, "str": str}
+_PY = {"int": int, "float": float, "str": str, "bool": bool}
+
+
+def builtin_ty(t):
+    """annotation in the BUILTIN generic spelling (`list[...]`, `tuple[..., ...]`, `X | None`): unlike `typing.List[...]`
+    / `typing.Optional[...]` these are not interned by `typing`'s own order-insensitive caches, so the declaration order of
+    the Union members survives when several orderings live in one process"""
+    k = t["k"]
+    if k == "union":
+        return Union[tuple(_PY[a["k"]] for a in t["alts"])]
+    if k == "list":
+        return list[builtin_ty(t["item"])]
+    if k == "vtuple":
+        return tuple[builtin_ty(t["item"]), ...]
+    if k == "opt":
+        return builtin_ty(t["inner"]) | None
+    return _PY[k]
+
 
 
 def build_class(u: Universe, cs: dict):
@@ -198,9 +245,12 @@ def build_class(u: Universe, cs: dict):
     plain = tmp.add_class("_plain_" + cs["name"], {"fields": [{k: v for k, v in f.items() if k != "ctype"} for f in cs["fields"]]})
     del u.classes["_plain_" + cs["name"]]
     ctype = {f["name"]: f["ctype"] for f in cs["fields"] if f.get("ctype")}
+    builtin = {f["name"]: f["ty"] for f in cs["fields"] if f["ty"].get("builtin")}
     fields = []
     for f in dataclasses.fields(plain):
-        if f.name in ctype:
+        if f.name in builtin:
+            fields.append((f.name, builtin_ty(builtin[f.name]), _copy_field(f)))
+        elif f.name in ctype:
             kw = {"default": f.default} if f.default is not dataclasses.MISSING else {}
             fields.append((f.name, f.type, sp_field(type=CTYPES[ctype[f.name]], **kw)))
         else:
@@ -614,7 +664,7 @@ def exhaustive(maxlen):
 def make_definition(rng):
     """a parser definition + a small fixed menu of argv for it (keeps the number of distinct fresh-interpreter runs small)"""
     cfg = rng.choice(CFGS)
-    names = rng.sample(["A", "B", "T", "S", "L", "K", "F"], rng.choice([1, 1, 2, 2, 3]))
+    names = rng.sample(["A", "B", "T", "S", "L", "K", "F", "UA", "UB"], rng.choice([1, 1, 2, 2, 3]))
     r = rng.random()
     cp = r < 0.25
     cf = []
@@ -673,6 +723,24 @@ def conflict_definitions():
     ]
 
 
+def union_order_stream():
+    """two (three) parsers whose dataclasses hold builtin-generic containers over Unions with the same members in different
+    orders; set up and parsed in both orders, interleaved, also through print_help"""
+    U, D_ = CFGS[0], CFGS[1]
+    a, b = segments(U, "UA", "ua"), segments(U, "UB", "ub")
+    H = lambda i: {"op": "print_help", "i": i}  # noqa: E731
+    out = []
+    for first, second, sa, sb in (("UA", "UB", a, b), ("UB", "UA", b, a)):
+        for k in ("ok1", "ok2", "ok3", "ok4"):
+            out.append(hist([mk(0, U), add(0, first), parse(0, sa[k]), mk(1, U), add(1, second), parse(1, sb[k]), parse(0, sa[k])],
+                            note=f"union-order:{first}>{second}:{k}"))
+        out.append(hist([mk(0, U), add(0, first), H(0), mk(1, D_), add(1, second), parse(1, sb["ok1"]), parse(1, sb["ok2"]), parse(1, sb["ok3"]),
+                         parse(0, sa["ok1"]), parse(0, sa["ok3"])], note=f"union-order:{first}>{second}:help"))
+        out.append(hist([mk(0, U), add(0, first), mk(1, U), add(1, second), mk(2, U), add(2, first), parse(1, sb["bad"]), parse(0, sa["ok1"]),
+                         parse(1, sb["ok1"]), parse(2, sa["ok2"]), parse(1, sb["ok2"])], note=f"union-order:{first}>{second}:three"))
+    return out
+
+
 def random_history(rng, maxlen, defs):
     n_parsers = rng.choice([1, 2, 2, 3, 3])
     ops, alive = [], {}
@@ -724,6 +792,7 @@ def gen_list(rng, tier):
             if (seen[n] - 1) % strides[n] != offs[n]:
                 continue
         cases.append(word_case(word))
+    cases += union_order_stream()
     defs = [make_definition(rng) for _ in range(12 if tier == "quick" else 70)]
     defs += conflict_definitions() * (1 if tier == "quick" else 2)
     n_rand = 100 if tier == "quick" else 2000
